@@ -167,6 +167,12 @@ def listSlice {α} (l : List α) (lo hi : Nat) : List α := (l.drop lo).take (hi
 /-- `v[i]` (Rust panics out of range; the model returns a default, and the properties never index out of range) -/
 def listGet {α} [Inhabited α] (l : List α) (i : Nat) : α := l[i]!
 
+/-- `itertools::tuple_windows` for pairs: consecutive overlapping pairs -/
+def windows2 {α} : List α → List (T2 α α)
+  | a :: b :: rest => T2.mk a b :: windows2 (b :: rest)
+  | _ => []
+
+
 /-- `a & b` on crossing counts -/
 def bitand (a b : Int) : Int :=
   -- two's complement `a & b` for a non-negative mask `b` (the only use in the code is `& 1`)
